@@ -130,6 +130,37 @@ impl Server {
         }
     }
 
+    /// Worker threads that are running (state R or accumulating CPU time) across two samples taken `gap` apart.
+    /// With no client connection open every worker must be blocked on the job queue: a worker that keeps running has not returned from a job.
+    pub fn busy_workers(&self, gap: Duration) -> Vec<String> {
+        let sample = |pid: i32| -> std::collections::HashMap<String, (String, char, u64)> {
+            let mut m = std::collections::HashMap::new();
+            if let Ok(rd) = std::fs::read_dir(format!("/proc/{}/task", pid)) {
+                for e in rd.filter_map(|e| e.ok()) {
+                    let tid = e.file_name().to_string_lossy().to_string();
+                    let comm = std::fs::read_to_string(e.path().join("comm")).unwrap_or_default().trim().to_string();
+                    if comm.parse::<u32>().is_err() { continue; }
+                    if let Ok(stat) = std::fs::read_to_string(e.path().join("stat")) {
+                        if let Some(rp) = stat.rfind(')') {
+                            let f: Vec<&str> = stat[rp + 2..].split_whitespace().collect();
+                            let state = f.get(0).and_then(|s| s.chars().next()).unwrap_or('?');
+                            let cpu = f.get(11).and_then(|s| s.parse::<u64>().ok()).unwrap_or(0) + f.get(12).and_then(|s| s.parse::<u64>().ok()).unwrap_or(0);
+                            m.insert(tid, (comm, state, cpu));
+                        }
+                    }
+                }
+            }
+            m
+        };
+        let a = sample(self.pid());
+        std::thread::sleep(gap);
+        let b = sample(self.pid());
+        let mut busy = vec![];
+        for (tid, (comm, s1, c1)) in a.iter() { if let Some((_, s2, c2)) = b.get(tid) { if (*s1 == 'R' && *s2 == 'R') || c2.saturating_sub(*c1) >= 3 { busy.push(comm.clone()); } } }
+        busy.sort();
+        busy
+    }
+
     pub fn sigstop(&mut self) { unsafe { libc::kill(self.pid(), libc::SIGSTOP); } self.stopped = true; }
     pub fn sigcont(&mut self) { unsafe { libc::kill(self.pid(), libc::SIGCONT); } self.stopped = false; }
 
